@@ -323,7 +323,7 @@ def programs(mido, size):
         return make
 
     progs = {}
-    if size >= 2:
+    if common.tier() == 'thorough':
         progs['P4b-multiport-receive-shuffled'] = p_multi((1, 0))
     progs.update({
         'P1-echo-receive': p_echo('receive'),
@@ -440,7 +440,10 @@ def run():
                  'enumeration of all thread schedules with a bounded number '
                  'of preemptions (iterative context bounding) on real '
                  'threads driven by settrace line events')
-    size = 2 if thorough else 1
+    # thorough: the same small programs (plus the shuffled MultiPort variant)
+    # with one more preemption and one more free-switch deviation; larger
+    # programs made the bound-2 tree exceed two hours
+    size = 1
     bounds = {}
     progs = programs(mido, size)
     jobs = []
